@@ -24,6 +24,12 @@ def run(ctx):
         cid = 'h%d' % i
         cases.append({'id': cid, 'text': text, 'snaps': snaps,
                       'line': 'run %s %s %s %s' % (cid, hexf(text), hexf('tr'), hexf('20000'))})
+    cg = heapgen.CycleGen(ctx.rng.fork('cycle'))
+    for i in range(n // 2):
+        text, snaps, final = cg.history()
+        cid = 'y%d' % i
+        cases.append({'id': cid, 'text': text, 'counts': snaps, 'final': final,
+                      'line': 'run %s %s %s %s' % (cid, hexf(text), hexf('tr,g1,g2,gx,ga'), hexf('20000'))})
     impl, model = vc.run_cases(ctx, cases, timeout_ms=8000)
     n_or = n_mm = 0
     distinct = set()
@@ -40,6 +46,18 @@ def run(ctx):
                 exp = '[' + ','.join('"' + s.replace('"', '""') + '"' for s in c['snaps']) + ']'
                 if unesc(m.group(5)).decode('latin-1') != exp:
                     bad = {'expected_snapshots': exp[:1500], 'implementation': m.group(5)[:1500]}
+        elif 'counts' in c:
+            m = re.match(r'res=(\S+) st=(\S+) err=(\S*) val=(.*?) tr=(.*?) g1=(.*?) g2=(.*?) gx=(.*?) ga=(.*)$', got or '')
+            if not m or m.group(1) != 'empty':
+                bad = {'expected': 'the history runs to completion (refused insertions only log a diagnostic)', 'implementation': (got or '')[:300]}
+            else:
+                exp = '[' + ','.join('[' + ','.join(str(x) for x in s) + ']' for s in c['counts']) + ']'
+                obs = {'tr': m.group(5), 'g1': m.group(6), 'g2': m.group(7), 'gx': m.group(8), 'ga': m.group(9)}
+                want = dict(c['final'], tr=exp)
+                for k in ('tr', 'g1', 'g2', 'gx', 'ga'):
+                    if unesc(obs[k]).decode('latin-1') != want[k]:
+                        bad = {'field': k, 'expected': want[k][:1500], 'implementation': obs[k][:1500]}
+                        break
         else:
             bad = vc.expect_oracle(c, vc.parse_obs(got) or {'raw': got})
         if len(samples) < 4:
@@ -56,7 +74,7 @@ def run(ctx):
                                                  'history': c['text'], 'implementation': (got or '')[:2000], 'model': (model.get(c['id']) or '')[:2000],
                                                  'line': c['line']})
     cov = {'evaluations': len(cases), 'distinct_nontrivial': len(distinct),
-           'rule': 'operation histories over four array variables: aliasing (b = a, arrays stored inside arrays), fresh-copy operators (+a, a + b, a - b, select-range, apply, select-filter), in-place operators (set with growth, pushBack, pushBackUnique, append, deleteAt, resize, reverse) and self-insertion attempts through every inserting operator directly and through intermediate arrays; after every operation str of all variables is recorded; oracle: a Python simulation with object identity (lists are references); the Lean heap model must give the same snapshots; distinct by text',
-           'samples': samples, 'oracle_failures': n_or, 'model_mismatches': n_mm, 'operation_counts': g.stats}
+           'rule': 'operation histories over four array variables: aliasing (b = a, arrays stored inside arrays), fresh-copy operators (+a, a + b, a - b, select-range, apply, select-filter), in-place operators (set with growth, pushBack, pushBackUnique, append, deleteAt, resize, reverse) and self-insertion attempts through every inserting operator directly and through intermediate arrays; after every operation str of all variables is recorded; plus histories over two arrays and two hash maps that try to close a cycle through either container kind (array in map, map in array, map in map, map as part of its own key), recording all counts after every operation and the final contents; oracle: a Python simulation with object identity (lists are references); the Lean heap model must give the same snapshots; distinct by text',
+           'samples': samples, 'oracle_failures': n_or, 'model_mismatches': n_mm, 'operation_counts': g.stats, 'cycle_history_operation_counts': cg.stats}
     return rep.finish(cov, ['sort and deleteRange are exercised by C09 (argument guards), not by the heap histories',
-                            'cycles through hash maps are a known finding, see known_findings.jsonl'])
+                            'str of a hash map is not modelled (bucket order); the cycle histories observe counts and the sorted final rendering instead'])
